@@ -336,10 +336,18 @@ fn bfs_unique_id(r: &Report, base: &Pset, base_name: &str, depth: usize) {
             ops.push(Upd::Out(j, "explicit-asset".to_string(), 0));
         }
     }
-    let mut seen: HashMap<Vec<u8>, ()> = HashMap::new();
+    // fingerprint = 128 bits of the serialized PSET (two independent FNV passes + length); the bytes themselves are not kept
+    let key = |b: &[u8]| -> (u64, u64) {
+        let mut h2: u64 = 0x9e37_79b9_7f4a_7c15 ^ b.len() as u64;
+        for (i, x) in b.iter().enumerate().rev() {
+            h2 = (h2 ^ (*x as u64).wrapping_add(i as u64)).wrapping_mul(0x0000_0100_0000_01b3).rotate_left(5);
+        }
+        (fnv(b), h2)
+    };
+    let mut seen: HashMap<(u64, u64), ()> = HashMap::new();
     // (history, state, unique id still equal to the initial one on this path)
     let mut frontier: VecDeque<(Vec<Upd>, Pset, bool)> = VecDeque::new();
-    seen.insert(serialize(base), ());
+    seen.insert(key(&serialize(base)), ());
     frontier.push_back((vec![], base.clone(), true));
     r.state(1);
     while let Some((hist, p, parent_ok)) = frontier.pop_front() {
@@ -350,7 +358,7 @@ fn bfs_unique_id(r: &Report, base: &Pset, base_name: &str, depth: usize) {
             let mut q = p.clone();
             apply(&mut q, op);
             r.trans(1);
-            let fp = serialize(&q);
+            let fp = key(&serialize(&q));
             if seen.contains_key(&fp) {
                 continue;
             }
@@ -381,7 +389,9 @@ fn bfs_unique_id(r: &Report, base: &Pset, base_name: &str, depth: usize) {
                     }
                 }
             }
-            frontier.push_back((h, q, ok));
+            if h.len() < depth {
+                frontier.push_back((h, q, ok)); // states at the depth bound are checked but never expanded: not kept
+            }
         }
     }
     r.add_extra_count("unique_id_states", seen.len() as u64);
